@@ -93,7 +93,7 @@ const (
 func (f *fsm) cleanup() {
 	if f.cancelDialFn != nil {
 		f.cancelDialFn()
-		<-f.dialResultCh
+		f.discardDialResult()
 	}
 	f.cleanupConnAndReader()
 	for _, t := range []*time.Timer{f.connectRetryTimer, f.holdTimer,
@@ -242,6 +242,16 @@ func (f *fsm) dialPeer() {
 	}()
 }
 
+// discardDialResult waits for a cancelled dial to finish. The dial may have
+// succeeded before the cancellation took effect, in which case the connection
+// nobody is going to use is closed.
+func (f *fsm) discardDialResult() {
+	dr := <-f.dialResultCh
+	if dr != nil && dr.conn != nil {
+		dr.conn.Close()
+	}
+}
+
 // https://tools.ietf.org/html/rfc4271#section-8.2.2
 func (f *fsm) idle() fsmState {
 	/*
@@ -307,7 +317,7 @@ func (f *fsm) connect() fsmState {
 		select {
 		case <-f.closeCh:
 			f.cancelDialFn()
-			<-f.dialResultCh
+			f.discardDialResult()
 			f.connectRetryTimer.Stop()
 			return disabledState
 		case dr := <-f.dialResultCh:
